@@ -324,11 +324,12 @@ def expected_commands(case):
 
 
 _world = None
+PACK = [False]    # thorough tier: also pack tile payloads with lifxlan's class
 
 
 def check_case(acc, case):
     from verif.harness import shared_world
-    world = shared_world('c07', POP)
+    world = shared_world('c07', POP, pack_messages=PACK[0])
     del world.trace[:]
     del world.lan.protocol_errors[:]
     script = render(case)
@@ -473,7 +474,7 @@ def plan(tier, seed_value):
     per = 12000 if tier == 'thorough' else 1500
     for k in range(16):
         specs.append({'kind': 'cases', 'seed': seed_value * 1000 + k,
-                      'examples': per})
+                      'examples': per, 'pack': tier == 'thorough'})
     return specs
 
 
@@ -484,6 +485,8 @@ def run_shard(spec):
     elif spec['kind'] == 'grid':
         run_grid(acc, spec['grid'], spec['start'], spec['stop'])
     else:
+        PACK[0] = bool(spec.get('pack'))
+
         @seed(spec['seed'])
         @_settings(spec['examples'])
         @given(cases())
